@@ -77,6 +77,7 @@ const (
 	EvInc            // operand post-increment of cell Addr
 	EvWrite          // opcode result written to cell Addr (may be a no-op when DIV/MOD divisor is zero)
 	EvTaskDie        // task at Addr terminated without successor
+	EvRead           // comparison opcodes: operand cell Addr was read (A operand first, then B)
 )
 
 type Event struct {
@@ -355,6 +356,8 @@ func step(core []Instr, m, r, w, pc int, nofold bool) StepResult {
 		} else {
 			queue(next)
 		}
+		ev(EvRead, (pc+rpa)%m)
+		ev(EvRead, (pc+rpb)%m)
 	case SLT:
 		var lt bool
 		switch IR.Mod {
@@ -376,6 +379,8 @@ func step(core []Instr, m, r, w, pc int, nofold bool) StepResult {
 		} else {
 			queue(next)
 		}
+		ev(EvRead, (pc+rpa)%m)
+		ev(EvRead, (pc+rpb)%m)
 	case SPL:
 		queue(next)
 		queue(jt)
